@@ -1,6 +1,10 @@
 #!/bin/bash
 # seedtest.sh <patchfile> <Cxx> [Cyy ...]: apply a seeded change to /repo, run the quick checks, undo it.
+# Evidence files are saved and restored: committed evidence must come from runs on the unchanged tree.
 PATCH=$(realpath $1); shift
-git -C /repo apply $PATCH || exit 2
+cd /verif
+SAVE=$(mktemp -d /var/tmp/evidence-save.XXXXXX); cp -a evidence/. $SAVE/
+git -C /repo apply $PATCH || { rm -rf $SAVE; exit 2; }
 for p in "$@"; do ./check $p --tier quick 2>&1 | grep -v '^  ' | sed "s|^|[$p] |" | tail -8; done
 git -C /repo checkout -- . ; git -C /repo status --short | head -3
+rm -rf evidence; mkdir evidence; cp -a $SAVE/. evidence/; rm -rf $SAVE
